@@ -549,10 +549,37 @@ func runRaftWiring(c *core.Ctx) {
 		})
 		return found
 	}
-	selfK := func(ex ast.Expr) (int64, bool) {
+	paramConst := map[types.Object]constant.Value{}
+	var selfK func(ex ast.Expr) (int64, bool)
+	selfK = func(ex ast.Expr) (int64, bool) {
 		ex = an.ResolveLocal(info, fn.Body(), ex)
 		if srvParam != nil && an.ObjOf(info, ex) == srvParam {
 			return 0, true
+		}
+		// a local closure that computes the id from a constant factor: helperSelf(k)
+		if cl, isCall := an.Unparen(ex).(*ast.CallExpr); isCall {
+			if lit, isLit := an.Unparen(an.ResolveLocal(info, fn.Body(), cl.Fun)).(*ast.FuncLit); isLit && len(lit.Body.List) == 1 {
+				if rs, isRet := lit.Body.List[0].(*ast.ReturnStmt); isRet && len(rs.Results) == 1 {
+					var ps []types.Object
+					for _, fl := range lit.Type.Params.List {
+						for _, nm := range fl.Names {
+							ps = append(ps, info.Defs[nm])
+						}
+					}
+					if len(ps) == len(cl.Args) {
+						for i, p := range ps {
+							if tv := info.Types[cl.Args[i]]; tv.Value != nil {
+								paramConst[p] = tv.Value
+							}
+						}
+						k, ok := selfK(rs.Results[0])
+						for _, p := range ps {
+							delete(paramConst, p)
+						}
+						return k, ok
+					}
+				}
+			}
 		}
 		call, ok := an.Unparen(ex).(*ast.CallExpr)
 		if !ok || !an.IsFuncNamed(an.CalleeFunc(info, call), an.PkgTLA, "MakeNumber") || len(call.Args) != 1 {
@@ -584,10 +611,16 @@ func runRaftWiring(c *core.Ctx) {
 			return 0, false
 		}
 		tv := info.Types[kx]
-		if tv.Value == nil {
+		val := tv.Value
+		if val == nil {
+			if pv, has := paramConst[an.ObjOf(info, kx)]; has {
+				val = pv
+			}
+		}
+		if val == nil {
 			return 0, false
 		}
-		v, exact := constant.Int64Val(constant.ToInt(tv.Value))
+		v, exact := constant.Int64Val(constant.ToInt(val))
 		return v, exact
 	}
 	ast.Inspect(fn.Body(), func(n ast.Node) bool {
